@@ -1,14 +1,14 @@
 import AlphaG.Lemmas.CrcOrbitDef
 /-
-Segments 0..3 of the orbit of POLY under the zero-input map: each is one kernel
-evaluation of 32800 register steps (`decide +kernel`; no `native_decide`). The junction states
+Segments 0..3 of the orbit of 1 under the zero-input map: each is one kernel
+evaluation of 32800 register steps (`decide +kernel`). The junction states
 are literals checked by the kernel (generated once with a script; a wrong literal fails).
 -/
 namespace AlphaG.Crc
 
-theorem orbit_seg0 : walk 2197175160 32800 = some 2730798091 := by decide +kernel
-theorem orbit_seg1 : walk 2730798091 32800 = some 3498798179 := by decide +kernel
-theorem orbit_seg2 : walk 3498798179 32800 = some 978560023 := by decide +kernel
-theorem orbit_seg3 : walk 978560023 32800 = some 1418059046 := by decide +kernel
+theorem orbit_seg0 : walk 1 32800 = some 1080372967 := by decide +kernel
+theorem orbit_seg1 : walk 1080372967 32800 = some 2767892023 := by decide +kernel
+theorem orbit_seg2 : walk 2767892023 32800 = some 1957120046 := by decide +kernel
+theorem orbit_seg3 : walk 1957120046 32800 = some 2836118092 := by decide +kernel
 
 end AlphaG.Crc
